@@ -341,7 +341,7 @@ func c07r5(c *core.Ctx) {
 	mapField := map[int]string{}
 	for i := 0; i < st.NumFields(); i++ {
 		if _, ok := st.Field(i).Type().Underlying().(*types.Map); ok {
-			mapField[i] = st.Field(i).Name()
+			mapField[i] = anchorName(vmT, i)
 		}
 	}
 	if len(mapField) == 0 {
